@@ -384,6 +384,81 @@ def drive_client(payload: dict) -> dict:
     return {'c': k, 'a': a}
 
 
+def drive_sink(payload: dict) -> dict:
+    """A TLS provider and a subscriber that names its event sinks with the schemes of the case."""
+    from decimal import Decimal
+
+    from sdc11073 import loghelper
+    from sdc11073.consumer.subscription import ConsumerSubscription
+    from sdc11073.definitions_sdc import SdcV1Definitions
+    from sdc11073.pysoap.msgfactory import MessageFactory
+    from sdc11073.pysoap.msgreader import MessageReader
+    from sdc11073.xml_types import eventing_types as evt
+    from sdc11073.xml_types.dpws_types import DeviceEventingFilterDialectURI
+    from verif.loopback import FakeHttpServer, mk_client_class
+    from verif.pair import Pair
+    k = payload['c']
+    a = {'exc': '', 'contacts': [], 'attempts': 0}
+
+    class Sink:
+        def do_post(self, headers, path, peer, data):  # noqa: ARG002
+            return 200, 'Ok', b''
+    pair = None
+    try:
+        cont = mk_container()
+        pair = Pair(with_consumer=False, provider_ssl=cont, async_mgr=k['mgr'].startswith('async'),
+                    reference_params=k['mgr'].endswith('_ref'))
+        net = pair.net
+        sinks = {'127.0.0.1:10011': 'notify', '127.0.0.1:10021': 'end'}
+        for netloc, what in sinks.items():
+            scheme = k['notify'] if what == 'notify' else (k['endto'] if k['endto'] != 'none' else 'https')
+            srv = FakeHttpServer(net, '127.0.0.1', int(netloc.split(':')[1]), scheme)
+            srv.dispatcher.register_instance('sink', Sink())
+        logger = loghelper.get_logger_adapter('sdc.verif.c19')
+        factory = MessageFactory(SdcV1Definitions, [], logger, validate=True)
+        reader = MessageReader(SdcV1Definitions, [], logger, validate=True)
+        client = mk_client_class(net, 'subscriber')('127.0.0.1:10001', 5, logger, cont.client_context,
+                                                    SdcV1Definitions, reader)
+        hosted = pair.provider.hosted_services.dpws_hosted_services['StateEvent'].mk_dpws_hosted_instance()
+        ft = evt.FilterType()
+        ft.text = SdcV1Definitions.Actions.EpisodicMetricReport
+        ft.Dialect = DeviceEventingFilterDialectURI.ACTION
+        end_to = None if k['endto'] == 'none' else f"{k['endto']}://127.0.0.1:10021/sink/end/1"
+        sub = ConsumerSubscription(factory, SdcV1Definitions.data_model, lambda addr: client, hosted, ft,
+                                   f"{k['notify']}://127.0.0.1:10011/sink/notify/1", end_to, '')
+        sub.subscribe(expires=60)
+        if not sub.is_subscribed:
+            raise MachineryError(f'sink case {k}: Subscribe was not accepted')
+        n0, w0 = len(net.clients), len(net.log)
+        try:
+            with pair.mdib.metric_state_transaction() as mgr:
+                mgr.get_state('numeric.ch0.vmd0').MetricValue.Value = Decimal(7)
+        except Exception as ex:  # noqa: BLE001
+            # (the synchronous manager lets an SSL error of the delivery travel up into the committing thread: not a
+            # matter of C19 - the connection was attempted under TLS, which is what is judged here)
+            a['delivery_error'] = type(ex).__name__
+        pair.stop(send_subscription_end=True)
+        pair = None
+        for cl in net.clients[n0:]:
+            if getattr(cl, 'local', '') == 'provider' and cl.netloc in sinks:
+                ctx = cl._ssl_context  # noqa: SLF001
+                a['contacts'].append({'what': 'client:' + sinks[cl.netloc], 'tls': ctx is not None,
+                                      'ctx': ctx is cont.client_context, 'scheme': 'https' if ctx is not None else 'http'})
+        for w in net.log[w0:]:
+            if w.src == 'provider' and w.dst in sinks:
+                a['contacts'].append({'what': 'message:' + sinks[w.dst], 'tls': bool(w.tls), 'ctx': bool(w.tls),
+                                      'scheme': 'https' if w.tls else 'http'})
+        a['attempts'] = len(a['contacts'])
+    except MachineryError:
+        raise
+    except Exception as ex:  # noqa: BLE001
+        a['exc'] = f'{type(ex).__name__}: {ex}'[:200]
+    finally:
+        if pair is not None:
+            pair.stop()
+    return {'c': k, 'a': a}
+
+
 # --------------------------------------------------------------------------- TLC side
 ACTIONS = ['ConnectTls', 'ConnectPlain', 'Fallback', 'ConnectFails', 'Hosted', 'Subscribe', 'Probe',
            'NotifyDelivered', 'NotifyFails', 'Renew', 'Operate', 'Unsubscribe', 'StopWithEnd', 'StopSilent', 'Retry', 'RestartHostile']
@@ -398,10 +473,10 @@ def cases_of(run, cfg: str, n_cfg: int):
         if key not in seen:
             seen.add(key)
             out.append(p)
-    kinds = {k: [p for p in out if p['c']['kind'] == k] for k in ('cfg', 'cert', 'client')}
+    kinds = {k: [p for p in out if p['c']['kind'] == k] for k in ('cfg', 'cert', 'client', 'sink')}
     sizes = {k: len(v) for k, v in kinds.items()}
-    if sizes != {'cfg': n_cfg, 'cert': 8, 'client': 4}:
-        raise MachineryError(f'{cfg}: TLC enumerated {sizes}, expected cfg={n_cfg} cert=8 client=4')
+    if sizes != {'cfg': n_cfg, 'cert': 8, 'client': 4, 'sink': 24}:
+        raise MachineryError(f'{cfg}: TLC enumerated {sizes}, expected cfg={n_cfg} cert=8 client=4 sink=24')
     if res.distinct < len(out):
         raise MachineryError(f'{cfg}: {res.distinct} states for {len(out)} cases')
     return kinds
@@ -459,6 +534,11 @@ def judge(run, traces: list[list[dict]], payloads: list[dict]):
         elif kind == 'cert':
             descr = {'check': 'certloader', 'clause': clause, 'entry': c['entry'], 'ca': c['ca']}
             what = f'certloader case {c}: clause {clause} fails, actual {rec["a"]}'
+        elif kind == 'sink':
+            descr = {'check': 'sink', 'clause': clause, 'mgr': c['mgr'], 'notify': c['notify'], 'endto': c['endto']}
+            bad = [x for x in rec['a']['contacts'] if not (x['tls'] and x['ctx'])]
+            what = (f'TLS provider and a subscriber naming its sinks {c}: clause {clause} fails, contacts not under the '
+                    f'client context: {bad[:3]} {rec["a"]["exc"]}')
         else:
             descr = {'check': 'soapclient', 'clause': clause, 'cls': c['cls'], 'ctx': c['ctx']}
             what = f'soap client case {c}: clause {clause} fails, actual {rec["a"]}'
@@ -479,6 +559,8 @@ def drive(payload: dict) -> tuple[list[dict], int]:
     kind = payload['c']['kind']
     if kind == 'cfg':
         return drive_cfg(payload)
+    if kind == 'sink':
+        return [{'phase': 'init', **drive_sink(payload)}], 3
     rec = drive_cert(payload) if kind == 'cert' else drive_client(payload)
     return [{'phase': 'init', **rec}], (10 if kind == 'cert' else 1)
 
@@ -501,7 +583,7 @@ def check(run, replay_path=None):
     kinds = cases_of(run, run.pick('Tls.cfg', 'Tls_thorough.cfg'), n_cfg)
     # second traces: a session that is restarted after the environment has turned hostile
     restarts = [dict(p, restart=True) for p in kinds['cfg'] if p['c']['peer'] == 'yes' and p['mode'] in ('tls', 'plain')]
-    payloads = kinds['cert'] + kinds['client'] + kinds['cfg'] + restarts
+    payloads = kinds['cert'] + kinds['client'] + kinds['sink'] + kinds['cfg'] + restarts
     traces, calls = [], 0
     t0 = time.time()
     for p in payloads:
@@ -541,7 +623,7 @@ def check(run, replay_path=None):
     run.note('session_stats', stats)
     if malformed:
         run.note('observation_malformed_addresses_not_judged_by_C19', sorted(malformed)[:4])
-    for k in ('cfg', 'cert', 'client'):
+    for k in ('cfg', 'cert', 'client', 'sink'):
         run.count(f'rejected_clauses_{k}', 0)
     for p, t in zip(payloads, traces):
         c = p['c']
